@@ -28,6 +28,7 @@ EQ_TOL = 1e-12  # two library expressions of the same closed form (jonswap(gamma
 PHI_TOL = 3e-3  # tma depth factor built on the Chen&Thomson wavenumber (<=1e-3 in k, d ln(phi)/d ln(k) <= 2) + margin
 DISC_TOL = 1e-9  # measured dm (deg) / dspr (relative) vs own discrete first moments
 REQ_ROUND = 1e-9  # rounding allowance on top of the derived aliasing bounds (requested vs measured dm / dspr)
+S_LIMIT = math.sqrt(2.0) * 180.0 / math.pi - 1e-9  # spread (deg) from which the cos^2s exponent is <= 0
 INT_OK = {"dm", "dpm", "dspr", "dpspr", "dep", "gamma"}
 FREQ_PARAMS = {
     "pierson_moskowitz": ["fp", "alpha", "hs"],
@@ -270,8 +271,9 @@ def circ_diff(a, b):
     return np.minimum(d, 360.0 - d)
 
 
-def ref_cartwright(d, dm, dspr, under_90=False, tie_keep=True):
-    """dm, dspr: arrays (...,) -> G (..., nd), normalised so that sum(G)*360/nd == 1; also the tie mask."""
+def ref_cartwright(d, dm, dspr, under_90=False, tie_keep=None):
+    """dm, dspr: arrays (...,) -> G (..., nd), normalised so that sum(G)*360/nd == 1; also the tie mask.
+    under_90: a node within 1e-9 deg of 90 deg from dm is a tie: kept iff tie_keep[..., j] (default: kept)."""
     nd = len(d)
     s = 2.0 / (dspr * D2R) ** 2 - 1.0
     g = np.empty(np.shape(dm) + (nd,))
@@ -284,9 +286,7 @@ def ref_cartwright(d, dm, dspr, under_90=False, tie_keep=True):
         if under_90:
             near = np.abs(dth - 90.0) <= 1e-9
             tie |= near
-            keep = (dth <= 90.0) | (near & tie_keep)
-            if not tie_keep:
-                keep &= ~near
+            keep = ((dth <= 90.0) & ~near) | (near & (True if tie_keep is None else tie_keep[..., j]))
             v = np.where(keep, v, 0.0)
         g[..., j] = v
     tot = np.zeros(np.shape(dm))
@@ -541,17 +541,17 @@ def call_spread(func, dir_in, freq_in, P, under_90):
     return direction.asymmetric(dir=dir_in, freq=freq_in, **kw)
 
 
-def ref_spread(func, d, f, P, under_90, tie_keep=True):
-    """reference G of shape (*extra, nf|1, nd) and tie mask"""
+def ref_spread(func, d, f, P, under_90, tie_keep=None):
+    """reference G of shape (*extra, nf|1, nd), the tie mask, and the reference spread parameter (deg)"""
     if func == "cartwright":
         dm = np.broadcast_to(P.arr("dm"), np.broadcast_shapes(P.arr("dm").shape, P.arr("dspr").shape))
         ds = np.broadcast_to(P.arr("dspr"), dm.shape)
         full = P.shape + (dm.shape[-1],)
-        return ref_cartwright(d, np.broadcast_to(dm, full), np.broadcast_to(ds, full), under_90, tie_keep)
+        return ref_cartwright(d, np.broadcast_to(dm, full), np.broadcast_to(ds, full), under_90, tie_keep) + (np.broadcast_to(ds, full),)
     a = [P.arr(n) for n in SPREAD_PARAMS["asymmetric"]]
     theta, sigma = ref_asym_params(f, *a)
     full = P.shape + (len(f),)
-    return ref_cartwright(d, np.broadcast_to(theta, full), np.broadcast_to(sigma, full), False)
+    return ref_cartwright(d, np.broadcast_to(theta, full), np.broadcast_to(sigma, full), False) + (np.broadcast_to(sigma, full),)
 
 
 def spread_tail_dims(func, P):
@@ -599,15 +599,16 @@ def eval_spread(case):
     i = first_bad(tot, np.ones_like(tot), EQ_TOL)
     if i is not None:
         add(i, "normalisation", "%s: sum(G)*dd = %r (freq index %d), expected 1" % (func, float(tot[i]), i[-1]))
-    ref, tie = ref_spread(func, d, f, P, under_90, True)
+    # a node exactly 90 deg from dm (under_90) may be kept or dropped: take the library's own choice per node
+    ref, tie, sig = ref_spread(func, d, f, P, under_90, (got > 0) if under_90 else None)
     flo = rowfloor(ref)
     with np.errstate(all="ignore"):
         okf = np.abs(got - ref) <= FORM_TOL * np.abs(ref) + flo
-    if under_90 and tie.any():
-        ref2, _ = ref_spread(func, d, f, P, under_90, False)
-        with np.errstate(all="ignore"):
-            ok2 = np.abs(got - ref2) <= FORM_TOL * np.abs(ref2) + rowfloor(ref2)
-        okf = np.where(tie[..., None], okf.all(axis=-1, keepdims=True) | ok2.all(axis=-1, keepdims=True), okf)
+    # spread parameter >= sqrt(2) rad = 81.03 deg gives s = 2/sigma^2 - 1 <= 0: cos^2s is singular opposite to dm and the
+    # values are set by the rounding of cos(pi/2); no closed form to compare with (normalisation / sign still checked)
+    sing = sig >= S_LIMIT
+    info["singular_rows"] = int(sing.sum())
+    okf |= sing[..., None]
     if not okf.all():
         i = tuple(int(x) for x in np.argwhere(~okf)[0])
         add(i, "closed-form", "%s at dir %g (freq index %d): got %r, normalised cos^2s reference %r" % (
@@ -694,7 +695,7 @@ def eval_twod(case):
             add(i, "hs", "2D spectrum built with hs=%r measures spec.hs()=%r" % (float(hsr[i]), float(hm[i]) if hm is not None else None))
     # measured direction and spread against own discrete first moments of the reference spreading
     DPa = relayout(DP, ALL)
-    Gref, tie = ref_spread(func, d, f, DPa, under_90, True)  # (*extra, nf|1, nd)
+    Gref, tie, _sig = ref_spread(func, d, f, DPa, under_90, None)  # (*extra, nf|1, nd)
     Gref = np.broadcast_to(Gref, eshape + (nf, nd))
     ms, mc = moments(Gref, d, dd)  # (*extra, nf)
     df = ref_df(f)
@@ -1059,7 +1060,7 @@ def work_items(tier, seed):
                     continue
                 items.append(dict(kind="asym", grid="%d/%s" % (nd, dname), dir=d, freq=f, fgrid=gname, menu=M, tier=tier, seed=seed, order=(4, nd)))
                 items.append(dict(kind="twod", grid="%s x %d/%s" % (gname, nd, dname), dir=d, freq=f, menu=M, tier=tier, seed=seed,
-                                  scalar=True, gi=gi, order=(5, nd)))
+                                  scalar=(tier == "quick" or gi == pair % ng), gi=gi, order=(5, nd)))
     items.sort(key=lambda it: it["order"])
     return items
 
@@ -1084,7 +1085,7 @@ class Acc:
                 self.res["violations"].append(v)
             self.sigs.add(v.signature)
         oc = self.res["outcomes"]
-        for k in ("deep", "deepish", "gamma1", "resolved", "unresolved"):
+        for k in ("deep", "deepish", "gamma1", "resolved", "unresolved", "singular_rows"):
             if info.get(k):
                 oc[part.split(":")[0] + ":" + k] = oc.get(part.split(":")[0] + ":" + k, 0) + int(info[k])
         for c in info.get("dm_conv", ()):
@@ -1262,7 +1263,8 @@ def asym_cols(m):
 
 def item_asym(it, acc):
     d, f = it["dir"], it["freq"]
-    m = asym_menu(it["menu"], f, it["tier"], it["seed"])
+    big = it["tier"] == "thorough" and len(f) * len(d) <= 2500
+    m = asym_menu(it["menu"], f, "thorough" if big else "quick", it["seed"])
     cols, N = asym_cols(m)
     ch = max(50, int(1.2e6 // (len(f) * len(d))))
     li = 0
@@ -1317,7 +1319,8 @@ def item_twod(it, acc):
         fz = {n: A(["case"], [v[i % Nf] for i in range(max(N, Nf))]) for n, v in fcols.items()}
         dz = {n: A(["case"], [v[i % N] for i in range(max(N, Nf))]) for n, v in cols.items()}
         acc.run("2d-dataarray:cartwright", dict(kind="twod", shape=shape, func="cartwright", freq=f, dir=d, fparams=dict(fixed, **fz), dparams=dz))
-        fx = {n: A(["site"], v) for n, v in fcols.items()}
+        xcols, _ = product_specs(names, {n: dict(M, fp=fp_menu(f, "quick", it["seed"]))[n][:2] for n in names})
+        fx = {n: A(["site"], v) for n, v in xcols.items()}
         dx = {n: A(["time"], v) for n, v in cols.items()}
         acc.run("2d-dataarray:cartwright", dict(kind="twod", shape=shape, func="cartwright", freq=f, dir=d, fparams=dict(fixed, **fx), dparams=dx))
     # frequency dependent dm / dspr through cartwright
@@ -1362,15 +1365,18 @@ def run_item(it):
 def run(rep, tier, seed, parts=None):
     common.load_wavespectra()
     rep.rule = (
-        "full Cartesian product of parameter menus per constructor (hs incl. 'not given', fp on/off node, gamma, alpha, sigma_a, "
-        "sigma_b, depth, gw) x frequency grids (linear/log/irregular, last frequency below and above 0.333 Hz) with scalar parameters "
-        "(one constructor call per element) and with parameters as DataArrays over one or two extra dimensions (all of them, and "
-        "subsets with the rest scalar); every spreading function on full-circle grids nd in {12,24,36,72} (start 0, half-bin offset, "
-        "descending, rotated) x dm x dspr x under_90, scalar / DataArray / frequency dependent; asymmetric over the product of "
-        "(dpm, dm-dpm, dspr, dpspr, fm-fp, fp); construct_partition(shape, spreading) for shape variants x the whole direction "
-        "product; numpy twins over the same products. One evaluation = one constructed spectrum (or one spreading function at one "
-        "frequency) compared with the plain-loop reference. Every parameter set is distinct by construction; sets counted as "
-        "non-trivial exclude the mixed scalar/DataArray repeats.")
+        "Per constructor the full Cartesian product of the parameter menus (hs incl. 'not given', fp on/off node, gamma, alpha, "
+        "sigma_a, sigma_b, depth, gw) on every frequency grid (linear/log/irregular, last frequency below and above 0.333 Hz), "
+        "passed as DataArrays over one or two extra dimensions (every element of a batch is one case), plus every subset of the "
+        "parameters as DataArrays with the rest scalar; with scalar parameters (one constructor call per case) the full product of "
+        "(hs | not given, fp, gamma, depth) x (sigma_a, sigma_b) pairs [tma quick: 3 of the 9 pairs per combination, cycling] with alpha "
+        "cycling. Every spreading function on full-circle grids nd in {12,24,36,72} (start 0, half-bin offset, descending, rotated) x dm x "
+        "dspr x under_90 as scalars / DataArrays / frequency dependent arrays; asymmetric over the product of (dpm, dm-dpm, dspr, "
+        "dpspr, fm-fp, fp); construct_partition(shape, spreading) for six shape variants x the whole direction product (scalar, "
+        "DataArray, shape and direction parameters zipped over one dim and crossed over two); numpy twins over the same products. "
+        "One evaluation = one constructed spectrum (or one spreading function at one frequency) compared with the plain-loop "
+        "reference and measured by the accessor. Parameter sets are distinct by construction; the count of non-trivial cases "
+        "excludes the mixed scalar/DataArray repeats. Failures inside a batch are re-run with scalar parameters before reporting.")
     rep.assumptions = [
         "closed-form clauses (auxiliary: they pin the documented formulas so that the statement's equalities are not satisfied by a wrong shape, and make the scalar/DataArray paths comparable): the documented formulas with g = 9.80665 (scipy.constants.g); tolerance 1e-9 relative with a floor of 1e-12 of the spectrum's peak (underflow region is don't-care)",
         "tma deep-water clause uses the derived bound 1-phi <= 4 e^-2x (1+x)/(1-e^-4x), x = 0.99 w^2 depth/9.81 (doubled after rescaling to hs); it is evaluated where the bound is <= 0.1",
